@@ -142,8 +142,8 @@ def run(tier: str) -> int:
     o.rule = "every admissible argument list (distinct names, non-blank values) up to MaxLen over 14 written forms is one case; all are non-trivial"
     o.assumptions = ["plain-text names and values", "Lua runs with pure-Lua stand-ins for ustring/libraryUtil"]
     thorough = tier == "thorough"
-    r = tlc("Gen_ArgViews", "Gen_ArgViews_3.cfg", workers=1, timeout=1800)
-    o.add_tlc("Gen_ArgViews[<=3] laws+cases", r)
+    r = tlc("Gen_ArgViews", "Gen_ArgViews_4.cfg" if thorough else "Gen_ArgViews_3.cfg", workers=1, timeout=3000)
+    o.add_tlc("Gen_ArgViews[<=4] laws+cases" if thorough else "Gen_ArgViews[<=3] laws+cases", r)
     d = tlc("Gen_ArgViews", "Demo_ArgViews_lua.cfg", workers=1, check=False)
     o.extra["demo_old_lua_view_differs"] = bool(d.invariant_violated)
     if not d.invariant_violated:
